@@ -42,6 +42,38 @@ def block_after(body, start):
     raise F.FactError("unbalanced block")
 
 
+def inline_private(t, body, rel, depth=2):
+    """body with every TAIL call `Self::helper(args)` of a private associated function of the same file replaced by the
+    helper's body, as if the helper were written in place: the parameters are renamed to the argument identifiers
+    (arguments must be plain locals, possibly borrowed: `x`, `&x`, `&mut x`; anything else is left alone and the feature
+    recognisers will then fail as before).  Only a tail call is inlined, so a `return` inside the helper means the same
+    thing after inlining."""
+    if depth == 0:
+        return body
+    m = re.search(r"(?:Self|CharacterCategory)::(\w+)\(([^()]*)\)\s*$", body.rstrip())
+    if not m:
+        return body
+    name, args = m.group(1), [a.strip() for a in m.group(2).split(",") if a.strip()]
+    d = re.search(r"(?<![\w])(pub(?:\([^)]*\))?\s+)?fn\s+%s\s*\(([^()]*)\)" % re.escape(name), t)
+    if not d or d.group(1):
+        return body        # not in this file, or public: it is its own unit
+    params = [x.strip() for x in d.group(2).split(",") if x.strip()]
+    if len(params) != len(args) or any(re.match(r"(&\s*(mut\s+)?)?self$", x) for x in params):
+        return body
+    pairs = []
+    for prm, a in zip(params, args):
+        pm = re.match(r"(?:mut\s+)?(\w+)\s*:", prm)
+        am = re.fullmatch(r"(?:&\s*(?:mut\s+)?)?(\w+)", a)
+        if not pm or not am:
+            return body
+        pairs.append((pm.group(1), am.group(1)))
+    hb = F.fn_body(t, name, rel)
+    # simultaneous whole-word rename parameter -> argument
+    mp = dict(pairs)
+    hb = re.sub(r"(?<![A-Za-z0-9_\.])(%s)(?![A-Za-z0-9_])" % "|".join(re.escape(k) for k in mp), lambda x: mp[x.group(1)], hb) if mp else hb
+    return inline_private(t, body[:m.start()] + hb, rel, depth - 1)
+
+
 def gen():
     out = [F.HEADER]
     t = F.strip_comments(F.src(CC))
@@ -65,7 +97,7 @@ def gen():
     out.append("Definition boundary_fields : list string := [%s].\n" % "; ".join(q(x) for x in ins))
 
     # ---- compile
-    b = F.fn_body(t, "compile", CC)
+    b = inline_private(t, F.fn_body(t, "compile", CC), CC)
     w = ws(b)
     if not re.search(r"if\w+\.is_empty\(\)\{returnCharacterCategory::default\(\);\}", w):
         raise F.FactError("compile: empty definition list no longer gives the default table")
